@@ -345,6 +345,50 @@ Definition op_assign (x : val) (op rhs : expr) : outcome val :=
   | VFunc ff => rhs_value <- eval rhs ;; run2 n ff x rhs_value
   | _ => Err EType
   end.
+
+(* Expr::OpAssign, hot path, with the ORDER of its steps explicit.  The assigned place is
+   abstract: a store S with a read [get] (eval_lvalue_as_obj) and a write [set] (drop_lhs writes
+   null, assign writes the result) - a plain variable is S = val, an index target a[i] is the
+   obvious lens.  The operator and the right-hand side are expressions that may READ the store
+   (x f= x, x f= g(x), a[i] f= a[j]): they are given as functions of the store they are evaluated
+   in.  Steps, as in eval.rs:
+     lhs_value = eval_lvalue_as_obj(p); opv = evaluate(op); rhs_value = evaluate(rhs)   -- all in s0
+     drop_lhs(p)                          -- s1 = set s0 null   (only now: rhs has been evaluated)
+     combined = ff.run2(lhs_value, rhs_value)
+     assign(p, combined)                  -- s2 = set s1 combined
+   The result is the final store and whether the statement succeeded (on a failure the store is
+   whatever the steps so far left: s0 if nothing was dropped yet, s1 - the place nulled - after). *)
+Definition op_assign_store (S : Type) (get : S -> outcome val) (set : S -> val -> outcome S)
+    (vnull : val) (s0 : S) (op rhs : S -> expr) : S * outcome unit :=
+  match get s0 with
+  | Ok lhs_value =>
+    match eval (op s0) with
+    | Ok (VFunc ff) =>
+      match eval (rhs s0) with            (* evaluated in s0: the place still holds its old value *)
+      | Ok rhs_value =>
+        match set s0 vnull with           (* drop_lhs *)
+        | Ok s1 =>
+          match run2 n ff lhs_value rhs_value with
+          | Ok combined =>
+            match set s1 combined with    (* assign *)
+            | Ok s2 => (s2, Ok tt)
+            | Err c => (s1, Err c) | Panic => (s1, Panic) | OutOfFuel => (s1, OutOfFuel)
+            end
+          | Err c => (s1, Err c) | Panic => (s1, Panic) | OutOfFuel => (s1, OutOfFuel)
+          end
+        | Err c => (s0, Err c) | Panic => (s0, Panic) | OutOfFuel => (s0, OutOfFuel)
+        end
+      | Err c => (s0, Err c) | Panic => (s0, Panic) | OutOfFuel => (s0, OutOfFuel)
+      end
+    | Ok _ => (s0, Err EType)
+    | Err c => (s0, Err c) | Panic => (s0, Panic) | OutOfFuel => (s0, OutOfFuel)
+    end
+  | Err c => (s0, Err c) | Panic => (s0, Panic) | OutOfFuel => (s0, OutOfFuel)
+  end.
+
+(* a plain variable *)
+Definition var_get (x : val) : outcome val := Ok x.
+Definition var_set (_ : val) (v : val) : outcome val := Ok v.
 End Eval.
 
 (* ---------------------------------------------------------------- the surface forms *)
